@@ -195,6 +195,23 @@ def tlc(sc, module, cfg, workers=None, extra=(), timeout=600, dfs=False, xss=Tru
     return r
 
 
+def apalache_inductive(sc, module, cinit="ConstInit", timeout=900):
+    """Discharge an inductive invariant with Apalache: Init => IndInv, IndInv /\ Next => IndInv', IndInv => Safety (the module
+    defines ConstInit, Init, IndInit, IndInv, Safety, Next).  Returns the list of commands; raises Infra when a step fails."""
+    cmds = []
+    for what, args in (("initiation", ["--init=Init", "--inv=IndInv", "--length=0"]), ("consecution", ["--init=IndInit", "--inv=IndInv", "--length=1"]),
+                       ("implies safety", ["--init=IndInit", "--inv=Safety", "--length=0"])):
+        cmd = ["apalache-mc", "check", "--cinit=" + cinit, "--out-dir=" + sc.path("apalache-out")] + args + [module + ".tla"]
+        try:
+            p = subprocess.run(cmd, cwd=sc.dir, stdout=subprocess.PIPE, stderr=subprocess.STDOUT, text=True, timeout=timeout)
+        except subprocess.TimeoutExpired:
+            raise Infra("apalache timed out on %s (%s)" % (module, what))
+        if "EXITCODE: OK" not in p.stdout:
+            raise Infra("apalache could not discharge %s %s:\n%s" % (module, what, p.stdout[-2500:]))
+        cmds.append(" ".join(cmd[:3] + args + [module + ".tla"]))
+    return cmds
+
+
 def tlc_must_pass(sc, module, cfg, **kw):
     r = tlc(sc, module, cfg, **kw)
     if r.rc != 0:
